@@ -228,6 +228,24 @@ func main() {
 	}
 
 	o.Case("linktable", linkTable())
+	// link types fq dispatches but the generator does not write: a statistic, never a divergence
+	var notCovered []string
+	for _, k := range pcap.VerifC19LinkTypes() {
+		used := false
+		for _, n := range linkNum {
+			if int(n) == k {
+				used = true
+			}
+		}
+		if !used {
+			notCovered = append(notCovered, fmt.Sprint(k))
+		}
+	}
+	sort.Strings(notCovered)
+	o.Stat("link_types_not_covered_by_generator", len(notCovered))
+	if len(notCovered) > 0 {
+		o.Sample("link types not covered by the generator: " + strings.Join(notCovered, " "))
+	}
 
 	// per shard (lib/props/C19.json: 4 shards quick, 8 shards thorough)
 	counts := map[string]int{"plain": 10, "files": 40, "nosynfin": 40, "dup": 40, "swap": 40, "omit": 50, "frag": 40,
